@@ -1,6 +1,7 @@
 package main
 
 import (
+	"sync"
 	"bytes"
 	"context"
 	"fmt"
@@ -360,9 +361,22 @@ func runSolver(ctx context.Context, solver, script string, perCheckMs int, hardS
 		case "sat", "unsat", "unknown", "timeout":
 			res.Answers = append(res.Answers, l)
 		}
+		if strings.HasPrefix(l, "(error") && !strings.Contains(l, "model is not available") && !strings.Contains(l, "Cannot get model") && !strings.Contains(l, "cannot get model") {
+			solverErrMu.Lock()
+			if len(solverErrs) < 20 {
+				solverErrs = append(solverErrs, solver+": "+l)
+			}
+			solverErrMu.Unlock()
+		}
 	}
 	return res
 }
+
+// malformed scripts are engine defects: they are collected and shown by "govc verify"
+var (
+	solverErrMu sync.Mutex
+	solverErrs  []string
+)
 
 func debugDump(name, script string) {
 	if d := os.Getenv("GOVC_DUMP"); d != "" {
